@@ -9,6 +9,7 @@ from cxxheaderparser.errors import CxxParseError
 from cxxheaderparser.tokfmt import Token, tokfmt
 from cxxheaderparser import types as T
 
+TECHNIQUE = 'Lean 4: theorems on tokfmt (values kept, blank rule, word-like tokens always separated) with the spacing table regenerated and re-decided by the kernel; punctuator neighbours decided by an exhaustive re-lex oracle to length 3 and correspondence'
 LEAN_TARGET = "CxxModel.Props.C16"
 THEOREMS = ["Cxx.C16_values_kept", "Cxx.C16_blank_rule", "Cxx.C16_wide_separated", "Cxx.C16_wide_classes", "Cxx.C16_tokfmt_standard"]
 ANCHORS = ["tokfmt.py:", "lexer.py:PlyLexer", "lexer.py:LexerTokenStream._fill_tokbuf", "types.py:Value"]
